@@ -1072,10 +1072,56 @@ class Origins:
                         out += self.elements(f, src.right, d, seen, pos)
                     else:
                         out += self.elements(f, src, d, seen, pos)
+                elif kind == "value" and len(p) == 1:
+                    # `patterns, others = helper(filters)`: the collection is one component of the tuple the helper returns
+                    comps = self.tuple_component(f, src, p[0], d)
+                    if comps is None:
+                        return stop
+                    for g, x in comps:
+                        out += self.elements(g, x, d, seen, pos)
                 else:
                     return stop
             return out + self._mutations(f, c, d, seen, pos)
         return stop
+
+    def tuple_component(self, f: FuncInfo, e: ast.expr, idx: int, depth: int = 0) -> list[tuple[FuncInfo, ast.expr]] | None:
+        """The expressions that form position `idx` of the tuple value `e` (literal, local, conditional, result of a repo helper)."""
+        if depth > self.MAX:
+            return None
+        if isinstance(e, (ast.Tuple, ast.List)):
+            if any(isinstance(x, ast.Starred) for x in e.elts) or idx >= len(e.elts):
+                return None
+            return [(f, e.elts[idx])]
+        if isinstance(e, ast.IfExp):
+            a, b = self.tuple_component(f, e.body, idx, depth + 1), self.tuple_component(f, e.orelse, idx, depth + 1)
+            return None if a is None or b is None else a + b
+        if isinstance(e, ast.Name) and not isinstance(f.node, ast.Lambda) and e.id not in f.param_names:
+            binds = self._bindings(f, e.id, e if parent(e) is not None else None)
+            out: list[tuple[FuncInfo, ast.expr]] = []
+            for kind, src, p in binds:
+                if kind != "value" or p:
+                    return None
+                sub = self.tuple_component(f, src, idx, depth + 1)
+                if sub is None:
+                    return None
+                out += sub
+            return out or None
+        if isinstance(e, ast.Call):
+            cs = self._callees(f, e)
+            if not cs:
+                return None
+            out = []
+            for g in cs:
+                rets = self._returns(g)
+                if not rets:
+                    return None
+                for r in rets:
+                    sub = self.tuple_component(g, r, idx, depth + 1)
+                    if sub is None:
+                        return None
+                    out += sub
+            return out
+        return None
 
     def _mutations(self, f: FuncInfo, c: ast.expr, d: int, seen: frozenset, pos: tuple, field: str | None = None) -> list[Leaf]:
         """Elements added to the collection `c` (a local name, or the field self.<field> anywhere in the class) by mutator calls."""
